@@ -186,13 +186,53 @@ func runBlockBase(sc *BlockCase, res *BlockResult) {
 		// steered iff the call has neither written nor returned: it waits for the lock
 		res.Steered = countWrites(rec, reqPkt[sc.K]) == 0 && len(ret) == 0
 	} else {
+		handlerEntered := make(chan struct{}, 1)
+		handlerRelease := make(chan struct{})
+		defer close(handlerRelease)
+		fromHandler := make(chan callRet, 1)
+		if sc.L == "handlerBusy" || sc.L == "fromHandler" {
+			mkctx()
+			cli.Handle(mqtt.HandlerFunc(func(*mqtt.Message) {
+				select {
+				case handlerEntered <- struct{}{}:
+				default:
+				}
+				if sc.L == "fromHandler" {
+					// e.g. a "quit" command message: the handler disconnects
+					err := cli.Disconnect(cctx)
+					fromHandler <- callRet{err, time.Now()}
+					return
+				}
+				<-handlerRelease
+			}))
+		}
 		if _, err := cli.Connect(root, "blocking"); err != nil {
 			res.Note = "connect: " + err.Error()
 			return
 		}
-		mkctx()
-		ret = startCall(cctx, cli, sc.K, 1)
-		res.Steered = waitFor(func() bool { return countWrites(rec, reqPkt[sc.K]) >= 1 }, 2*time.Second)
+		if sc.L == "handlerBusy" || sc.L == "fromHandler" {
+			w.Send(t, netsim.Publish("in", []byte("x"), 0, 0, false, false))
+			select {
+			case <-handlerEntered:
+			case <-time.After(2 * time.Second):
+				res.Note = "handler not entered"
+				return
+			}
+		}
+		if sc.L == "fromHandler" {
+			ret = fromHandler
+			res.Steered = true
+		} else {
+			if cctx == nil {
+				mkctx()
+			}
+			ret = startCall(cctx, cli, sc.K, 1)
+			if sc.K == "disconnect" {
+				res.Steered = true
+			} else {
+				res.Steered = waitFor(func() bool { return countWrites(rec, reqPkt[sc.K]) >= 1 }, 2*time.Second)
+			}
+		}
 		if sc.Also != "" {
 			also = startCall(root, cli, sc.Also, 2)
 			want := 1
